@@ -1,6 +1,8 @@
 import CogentModel.Proofs.AlnRefine1
 import CogentModel.Proofs.AlnRc
 import CogentModel.Proofs.AlnTakePos
+import CogentModel.Proofs.AlnKeep2
+import CogentModel.Proofs.AlnFilter
 namespace CogentModel.Aln
 open CogentModel.IndelMap CogentModel.Gapped List CogentModel
 
@@ -63,8 +65,33 @@ theorem takeSeqs_show (a : AlnA) (names : List String) (negate : Bool) :
 
 /-- the operations for which the history theorem is proved -/
 def OpOK : AOp → Prop
-  | .slice _ _ | .int _ | .rc | .takeSeqs _ _ | .takePositions _ _ | .toRna | .toDna | .addSelf | .addCopy => True
-  | .keep _ => False
+  | .slice _ _ | .int _ | .rc | .takeSeqs _ _ | .takePositions _ _ | .toRna | .toDna | .addSelf | .addCopy
+  | .degap _ | .sample _ _ | .reparse | .filterMask _ => True
+  | .keep locs => sortPairs locs = locs
+
+theorem rowSample_spec (r : Row) (h : RowWF r) (ml : Int) : ∀ (locs : List Int) (s : List Char),
+    rowSample r ml locs = .ok s → s = denseSample (gapped r) ml locs := by
+  intro locs
+  induction locs with
+  | nil => intro s hs; simp only [rowSample] at hs; cases hs; rfl
+  | cons loc rest ih =>
+    intro s hs
+    simp only [rowSample] at hs
+    cases hx : rowSlice r (some (loc * ml)) (some ((loc + 1) * ml)) with
+    | error e => rw [hx] at hs; cases hr : rowSample r ml rest <;> rw [hr] at hs <;> cases hs
+    | ok x =>
+      cases hr : rowSample r ml rest with
+      | error e => rw [hx, hr] at hs; cases hs
+      | ok tl =>
+        rw [hx, hr] at hs
+        cases hs
+        simp only [denseSample, (rowSlice_spec r x h _ _ hx).2, ih tl hr]
+
+theorem find_show (a : AlnA) (name : String) :
+    (showA a).find? (fun x => decide (x.1 = name)) = (a.find? (fun x => decide (x.1 = name))).map (fun p => (p.1, gapped p.2)) := by
+  unfold showA
+  rw [List.find?_map]
+  rfl
 
 theorem toRna_gap : toRna '-' = '-' := by decide
 theorem toDna_gap : toDna '-' = '-' := by decide
@@ -105,7 +132,16 @@ theorem step_refines (dna : Bool) (a : AlnA) (op : AOp) (hop : OpOK op) (hwf : A
       obtain ⟨i1, i2⟩ := mapRows_total _ (fun s => s.reverse.map (comp dna))
         (fun r r' hr hh => rowRc_spec dna r r' hr hh) a a' hwf hm
       exact ⟨i1, by simp only [stepD]; rw [i2]⟩
-  | keep l => exact absurd hop (by simp [OpOK])
+  | keep locs =>
+    have hsorted : sortPairs locs = locs := hop
+    simp only [stepA] at h
+    cases hm : mapRows (fun r => rowKeep r locs) a with
+    | error e => rw [hm] at h; cases h
+    | ok a'' =>
+      rw [hm] at h; cases h
+      obtain ⟨i1, i2⟩ := mapRows_total _ (fun s => denseKeep s locs)
+        (fun r r' hr hh => rowKeep_spec r r' hr locs hsorted hh) a a' hwf hm
+      exact ⟨i1, by simp only [stepD]; rw [i2]⟩
   | takeSeqs ns neg =>
     simp only [stepA] at h; cases h
     refine ⟨?_, by simp only [stepD]; rw [takeSeqs_show]⟩
@@ -156,6 +192,87 @@ theorem step_refines (dna : Bool) (a : AlnA) (op : AOp) (hop : OpOK op) (hwf : A
       intro q hq
       simp only [Function.comp]
       rw [(gapped_mapData q.2 (hwf q hq) toDna toDna_gap).2]
+  | filterMask mask =>
+    simp only [stepA] at h
+    cases hl : maskRuns 0 none mask with
+    | nil => rw [hl] at h; cases h
+    | cons c rest =>
+      rw [hl] at h
+      simp only [] at h
+      have hsorted : sortPairs (c :: rest) = c :: rest := by
+        rw [← hl]
+        exact sortPairs_sorted _ (maskRuns_keys mask 0 none (by intro st hh; cases hh)).1
+      have hall : ¬ (mask.all (! ·) = true) := by
+        intro hc
+        -- with no kept column there is no block
+        have : ∀ (m : List Bool) (pos : Int), m.all (! ·) = true → maskRuns pos none m = [] := by
+          intro m
+          induction m with
+          | nil => intro pos _; rfl
+          | cons b r ih =>
+            intro pos hb
+            cases b with
+            | true => simp at hb
+            | false => simp only [maskRuns, nil_append]; exact ih (pos + 1) (by simpa using hb)
+        rw [this mask 0 hc] at hl; cases hl
+      cases hm : mapRows (fun r => rowKeep r (c :: rest)) a with
+      | error e => rw [hm] at h; cases h
+      | ok a'' =>
+        rw [hm] at h; cases h
+        obtain ⟨i1, i2⟩ := mapRows_total _ (fun s => denseKeep s (c :: rest))
+          (fun r r' hr hh => rowKeep_spec r r' hr _ hsorted hh) a a' hwf hm
+        refine ⟨i1, ?_⟩
+        have hall' : mask.all (! ·) = false := by
+          cases hb : mask.all (! ·) with
+          | true => exact absurd hb hall
+          | false => rfl
+        simp only [stepD, hall', Bool.false_eq_true, if_false]
+        rw [i2]
+        congr 3
+        apply map_congr_left
+        intro p _
+        rw [← hl, denseKeep_maskRuns]
+  | degap name =>
+    simp only [stepA] at h
+    simp only [stepD, find_show]
+    cases hf : a.find? (fun x => decide (x.1 = name)) with
+    | none => rw [hf] at h; cases h
+    | some p =>
+      rw [hf] at h
+      simp only [] at h
+      cases hm : mapRows (fun r => rowTakePositions r (nonGapCols (gapped p.2))) a with
+      | error e => rw [hm] at h; cases h
+      | ok a'' =>
+        rw [hm] at h; cases h
+        obtain ⟨i1, i2⟩ := mapRows_partial _ (fun s => denseTake s (nonGapCols (gapped p.2)))
+          (fun r r' hr hh => rowTakePositions_spec r r' hr _ hh) a a' hwf hm
+        exact ⟨i1, by simp only [Option.map_some]; rw [i2]; rfl⟩
+  | sample locs ml =>
+    simp only [stepA] at h
+    cases hm : mapRows (fun r => (rowSample r ml locs).map rowOfString) a with
+    | error e => rw [hm] at h; cases h
+    | ok a'' =>
+      rw [hm] at h; cases h
+      obtain ⟨i1, i2⟩ := mapRows_total _ (fun s => denseSample s ml locs)
+        (fun r r' hr hh => by
+          cases hs : rowSample r ml locs with
+          | error e => rw [hs] at hh; cases hh
+          | ok s =>
+            rw [hs] at hh
+            cases hh
+            exact ⟨rowWF_ofString s, by rw [gapped_rowOfString]; exact rowSample_spec r hr ml locs s hs⟩) a a' hwf hm
+      exact ⟨i1, by simp only [stepD]; rw [i2]⟩
+  | reparse =>
+    simp only [stepA] at h; cases h
+    refine ⟨?_, ?_⟩
+    · intro p hp
+      obtain ⟨q, _, rfl⟩ := mem_map.mp hp
+      exact rowWF_ofString _
+    · simp only [stepD, showA, map_map]
+      congr 3
+      apply map_congr_left
+      intro q _
+      simp only [Function.comp, gapped_rowOfString]
   | addSelf =>
     simp only [stepA] at h; cases h
     refine ⟨?_, ?_⟩
